@@ -309,6 +309,34 @@ def run(ctx):
         check_point("zdt1", 2, [rng.random() for _ in range(30)], "zdt1", dtypes=("float",), with_goals=False)
         check_point("biobj", 2, [rng.uniform(0.1, 1.0), rng.uniform(0.0, 5.0)], "biobj", dtypes=("float",), with_goals=False)
 
+    # ---- purity probe: the models are functions of the point; the implementation must be one too --------
+    # (no state shared between overlapping evaluations on one problem object - parallel evaluation runs
+    #  threads on a shared problem -, no mutation of the caller's vector)
+    from harness import core as _core
+    stats["purity_probes"] = 0
+    probe_specs = [(k_, m_, m_ + 9) for k_ in ("dtlz1", "dtlz2", "dtlz3", "dtlz4") for m_ in (2, 3)] + [("zdt1", 2, 30), ("biobj", 2, 2)]
+    for kind, m, n in probe_specs:
+        p = problem(kind, m, n)
+
+        def call(vec, p=p):
+            ind = Individual([0.0])
+            ind.vector = vec
+            return list(p.evaluate(ind))
+        for _ in range(ctx.pick(2, 10)):
+            if kind == "biobj":
+                xa, xb = [[rng.uniform(0.1, 1.0), rng.uniform(0.0, 5.0)] for _ in range(2)]
+            elif kind == "zdt1":
+                xa, xb = [[rng.random() for _ in range(n)] for _ in range(2)]
+            else:
+                xa, xb = gen_point(rng, kind, m, n, "random"), gen_point(rng, kind, m, n, "random")
+            stats["purity_probes"] += 1
+            ctx.count(("purity", kind, m, tuple(xa), tuple(xb)))
+            for why in _core.purity_probe(call, xa, xb, rng):
+                ctx.oracle_failures.append({"what": "%s: %s" % (kind, why), "input": {"class": kind, "m": m, "x": xa, "other": xb},
+                                            "match": {"kind": "pareto_bench_purity", "class": kind}})
+                ctx.mismatches.append({"what": "implementation is not a function of the point (the model is): " + why,
+                                       "correspondence": "c16-purity", "case": {"class": kind, "m": m, "x": xa, "other": xb}})
+
     stats["goals"] = len(goals)
     ctx.coq_goals("c16", HEADER, goals, meta, shard=ctx.pick(22, 60))
     ctx.rule = ("a point is one (class, m, x, input dtype) evaluated by the implementation and checked by the direct oracle; "
